@@ -199,13 +199,17 @@ class Trie:
             node = nxt
 
     def to_list(self):
-        """[ev, [subtrees]] without recursion limits for long single chains"""
-        out = [self.ev, []]
+        """[segment, [subtrees]] where segment is the list of events of a non-branching chain"""
+        out = [[self.ev] if self.ev is not None else [], []]
         stack = [(self, out)]
         while stack:
             node, lst = stack.pop()
+            # absorb a non-branching chain into the segment
+            while len(node.kids) == 1 and lst[0]:
+                (node,) = node.kids.values()
+                lst[0].append(node.ev)
             for kid in node.kids.values():
-                sub = [kid.ev, []]
+                sub = [[kid.ev], []]
                 lst[1].append(sub)
                 stack.append((kid, sub))
         return out
@@ -215,7 +219,7 @@ def _count(tree):
     n, stack = 0, [tree]
     while stack:
         t = stack.pop()
-        n += 1
+        n += len(t[0])
         stack.extend(t[1])
     return n
 
@@ -239,21 +243,24 @@ def replay_histories(histories, driver, split_depth=2, procs=None, label=None):
         stack = [([], sub, 1) for sub in tree[1]]
         while stack:
             prefix, node, d = stack.pop()
-            ev, kids = node
-            if d >= split_depth or not kids:
+            seg, kids = node
+            if d + len(seg) - 1 >= split_depth or not kids:
                 f.write(json.dumps({"prefix": prefix, "tree": node}) + "\n")
                 ntasks += 1
                 edges += _count(node)
             else:
-                f.write(json.dumps({"prefix": prefix, "tree": [ev, []]}) + "\n")
+                f.write(json.dumps({"prefix": prefix, "tree": [seg, []]}) + "\n")
                 ntasks += 1
-                edges += 1
+                edges += len(seg)
                 for k in kids:
-                    stack.append((prefix + [ev], k, d + 1))
+                    stack.append((prefix + seg, k, d + len(seg)))
     out_file = os.path.join(wd, "out.json")
     env = dict(os.environ)
     env["PYTHONDONTWRITEBYTECODE"] = "1"
-    cmd = [PY, os.path.join(VERIF, "harness", "replay_worker.py"), driver.SPEC, json.dumps(driver.kwargs),
+    kwf = os.path.join(wd, "kwargs.json")
+    with open(kwf, "w") as f:
+        json.dump(driver.kwargs, f)
+    cmd = [PY] + list(getattr(driver, "pyflags", [])) + [os.path.join(VERIF, "harness", "replay_worker.py"), driver.SPEC, "@" + kwf,
            tasks_file, out_file, str(procs)]
     p = subprocess.run(cmd, cwd=VERIF, env=env, stdout=subprocess.PIPE, stderr=subprocess.STDOUT, text=True)
     if p.returncode != 0 or not os.path.exists(out_file):
